@@ -115,6 +115,90 @@ func predecessorDroppedWhileJoinWaits() (problem string, panics int64) {
 	return "", 0
 }
 
+// joinWhileContactedNodeIsLeaving: the contacted node S is in the middle of its
+// own graceful leave (state Leaving, its key hand-over to the successor is on
+// the wire) when a valid joiner whose id lies in S's range asks S to join. The
+// answer - whether it is given at once or after the leave has finished - must
+// be a hand-off or a retryable refusal: the joiner's retry will find the new
+// owner of the range.
+func joinWhileContactedNodeIsLeaving() (problem string) {
+	const (
+		P = uint64(1) << 44
+		J = uint64(3) << 43
+		S = uint64(2) << 44
+		N = uint64(3) << 44
+	)
+	r := newSimRing(ringsim.Config{Seed: 55})
+	defer r.net.Close()
+	if err := r.buildRing([]uint64{P, S, N}, func(i int) int { return 0 }); err != nil {
+		return "precondition: " + err.Error()
+	}
+	if _, c := r.settle(60, true, nil); c.Problem != "" {
+		return "precondition: " + c.Problem
+	}
+	r.fillLists(20)
+	ctx := context.Background()
+	stored := 0
+	for i := 0; i < 1<<16 && stored < 6; i++ {
+		k := []byte(fmt.Sprintf("leaving-%d", i))
+		if chord.Between(P, chord.Hash(k), S, true) {
+			if err := retryKV(func() error { return r.members[S].Node.Put(ctx, k, []byte("v")) }); err != nil {
+				return "precondition: put: " + err.Error()
+			}
+			stored++
+		}
+	}
+	gate := r.net.AddGate(&ringsim.Gate{Method: "Import", Caller: S, Callee: N, Nth: 1})
+	leaveDone := make(chan struct{})
+	go func() { r.members[S].Node.Leave(); close(leaveDone) }()
+	select {
+	case <-gate.Reached():
+	case <-leaveDone:
+		gate.Release()
+		return "precondition: leave finished without handing keys over"
+	case <-time.After(10 * time.Second):
+		gate.Release()
+		return "precondition: hand-over not reached"
+	}
+	if st := r.members[S].Node.VerifState(); st != chord.Leaving {
+		gate.Release()
+		<-leaveDone
+		return "precondition: contacted node is " + st.String() + ", not Leaving"
+	}
+	answer := make(chan error, 1)
+	go func() {
+		_, _, err := r.net.Proxy(J, S).RequestToJoin(r.net.Proxy(S, J))
+		answer <- err
+	}()
+	// the request is inside S (refused at once, or queued behind the hand-over)
+	var err error
+	answered := false
+	select {
+	case err = <-answer:
+		answered = true
+	case <-time.After(30 * time.Millisecond):
+	}
+	gate.Release()
+	<-leaveDone
+	if !answered {
+		select {
+		case err = <-answer:
+		case <-time.After(20 * time.Second):
+			return "join request to a leaving node was not answered after the leave had finished"
+		}
+	}
+	if n := r.net.Panics.Load(); n > 0 {
+		return "handler panicked while serving the join request: " + firstLine(r.net.PanicLog[0])
+	}
+	if err != nil && !chord.ErrorIsRetryable(err) {
+		return fmt.Sprintf("join request for an id in the range of node %d, which was in the middle of its graceful leave, answered with the non-retryable error %q (answered before the leave finished: %v)", S, err, answered)
+	}
+	if err == nil {
+		r.net.Proxy(J, S).FinishJoin(false, true)
+	}
+	return ""
+}
+
 // joinWhilePredecessorPointerStale: the predecessor L of S has just left
 // gracefully and S has not noticed yet (its predecessor pointer still names
 // L) when a valid joiner between L and S asks S to join. The first answer
